@@ -400,12 +400,13 @@ def r5(ctx, R):
     R.must(len(tests) >= 1, "test `if self.excinfo` not found")
     handled = q.test_nodes(fi, lambda e: q.text(e) == "self.is_formula_error_handled")
     R.inst("_start_exec: with excinfo set, normal return only in handled mode")
-    for t in tests:
-        tsucc = [b for b, l in cfg.succ[t] if l == "T"]
-        r = cfg.reach(tsucc, avoid_edges={(h, "T") for h in handled})
-        if cfg.exit in r:
-            R.bad(fi, cfg.nodes[t].ast, "a failed evaluation can return normally (error swallowed)",
-                  path=q.explain_path(fi, tsucc, [cfg.exit]))
+    # abstract run: every test of excinfo answers true, handled mode is off -> no normal return
+    # after the evaluation (the call's own normal edge is where the run starts)
+    val = lambda e: {"self.excinfo": "T", "self.is_formula_error_handled": "F"}.get(q.text(e))
+    r = q.run_abstract(fi, val, starts=[t for t in tests])
+    if cfg.exit in r:
+        R.bad(fi, cfg.nodes[tests[0]].ast, "a failed evaluation can return normally (error swallowed)",
+              path=q.explain_path(fi, [b for b, l in cfg.succ[tests[0]] if l == "T"], [cfg.exit]))
     R.inst("_start_exec: the test on excinfo dominates the normal return of the buffer")
     rets = [r_ for r_ in q.returns(fi) if r_.value is not None and q.mentions_attr(r_.value, "buffer")]
     R.must(rets, "return self.buffer not found")
